@@ -71,6 +71,31 @@ T = {
 }
 
 
+# Sentences added to the level text by the widenings of rounds 3 and 4
+# (DESIGN.md 10.7, 10.8).
+ADD = {
+    'C01': 'Keys include hostile-but-legal ones (the empty string, int/str twins, keys that print like other paths); every symbolic object handed to a call and not stored afterwards must be an intact detached tree (also after refused calls and refused constructors); Object classes with regex-keyed fields and symbolic defaults receive explicit MISSING_VALUE arguments; pg.Ref nodes are forest members, and stored nodes fetched as nodes are handed to constructors / wrappers again.',
+    'C02': 'Operands come in every form Python accepts (dict / list subclasses, iterables, mappings, pairs); every stored container member must be symbolic and is read through (sym_get, path query, deep rebind); leaves include hostile-equality objects (always / never equal, raising, NaN) compared by identity, subclasses of primitives with a text-sensitive JSON oracle, unusual keys (bool, int subclasses, path syntax); return values of setdefault / pop / popitem / get must be the stored members.',
+    'C03': 'Nested scope stacks over {True, False, None} for allow_partial / enable_type_check with the innermost-open-scope reference; typed operands whose spec neighbours the field spec (bounds incl. 0 / 0.0 / -0.0, regexes, sizes); known typed-operand keys narrowed by a reference diagnosis of the stored value.',
+    'C04': 'Specs carry idempotent user transforms and are used (applied, rendered, compared) before they are extended, also through real pg.Object subclassing; results of apply are checked for identity-sharing with defaults anywhere in the spec tree and mutated in place, after which the spec must still match its snapshot.',
+    'C05': 'Strings and keys include lone surrogates, NUL, every line break and 70k characters; every value also goes through both file systems (save / overwrite / append, relative spellings, text-binary overwrites) with a failed-write clause; functions with positional and keyword-only defaults of every serializable kind; objects with user-defined equality compared member by member with a twin; pg.KeyPath values over hostile keys; the same in-memory JSON value is loaded repeatedly.',
+    'C06': 'Pools contain Object classes with variable-key fields stored in any order, NaN / never-equal leaves shared by identity (judged where the leaf only meets itself), tuple subclasses and subclasses of pg.List / pg.Dict, and twins reached by clone.',
+    'C07': 'Typed containers are clone roots; tuple-valued members hold symbolic nodes and mutable objects (identity walk through tuples and plain containers); flag keys carry scope and position; members sit under unusual dict keys; nodes get flag histories (accessor, seal / unseal below sealed); subclasses of pg.Dict / pg.List, specs with user transforms, functor clones inside auto_call_functors.',
+    'C08': 'Scope objects are created early and entered later (stack reference model); flag operations happen inside scopes with the deep check after leaving; functors, hyper values and DNA are forest nodes and the unchanged-snapshot includes their public state outside the fields (argument sets, call result, flags); descendant flag operations followed by seal / unseal of the ancestor; refused batches must leave the whole tree unchanged.',
+    'C09': 'Functors with partly unbound arguments are forest nodes (directed bind / unbind / write-below steps); pg.patch_on_* / pg.patch / clone(override=) are in the operation table with their notification options; keys include the empty string and bracket syntax; the dicts returned by sym_missing / sym_nondefault are tampered with and every fact re-asked.',
+    'C10': 'Tree cases come as fresh, aliased (one member object at several paths), inferential (pg.Ref, ValueFromParentChain, contextual attributes per holder class) and history (writes, JSON round trips, moves before traversal) flavours; every symbolic node must report the path of its position.',
+    'C11': 'One generator object is set up repeatedly (same spec object, equal copy, other spec); floats in all four scales with pinned, few-ulp, huge and overflowing ranges and RNG stubs returning the extremes, NaN corruptions; enumerable custom points over hostile genomes (empty string etc.) in seven embeddings with bounded iteration; space_size of specs with 1-4 infinite elements; corruptions applied in place to bound DNAs before validate / use_spec; successors of sealed DNAs.',
+    'C12': 'Call histories on one long-lived spec and on its parts used as specs of their own (first_dna / next_dna / iter_dna / random_dna with attach_spec absent, True, False, in any order).',
+    'C13': 'Clients edit decoded values in place between decodes (identity disjointness between results and template); equal values with permuted dict keys encode to the same DNA; non-member encode inputs must leave the template unchanged; templates carry sealed / accessor / partial flags; plain dict / list roots are judged fully.',
+    'C15': 'The persisted history is delivered to recover() in 1-4 pieces at every class of cut (empty first / last piece, before a pending entry, inside / after the population fill); num_generations and the initial-population phase of the next proposal are compared; user-defined generators whose proposals depend on their counters.',
+    'C16': 'Window sessions release all workers together at their first feedback / start and pre-empt at every statement inside the window (lockstep, stutter, dense, enumerated depths) with a user-style algorithm whose multi-statement bookkeeping is audited; group ids over the documented int|str domain incl. 0 and the empty string; trials that take several deliveries with num_examples set.',
+    'C17': 'Fifteen kinds of events in which code the library dispatches to raises and is caught inside the block are followed by effectiveness checks; scope objects created early and entered late for every manager; DynamicEvaluationContext.apply with exits that raise, nested on one context; enters that raise inside an enclosing scope of the same kind; rebinds of the governed object inside the block; empty-collection arguments.',
+    'C18': 'Decorated callables (1-4 wrapper layers with visible effect), nested partial arguments completed through deep paths with an instrumented __init__, fully annotated signatures with Unions in both member orders under auto_typing compared type-sensitively, keyword-argument order through clone / JSON / pickle, late binding of *args, first parameters named self / cls, positional-only parameters.',
+    'C19': 'The way a permission is supplied (argument, scope, both, nested) is crossed with every way of executing (evaluate, run, maybe_sandbox_call, sandbox_call; sandbox None / False / True; timeout); programs whose values are exception instances / classes; nests of 20-900 levels; programs whose last statement has no value.',
+    'C20': 'Every string-valued constructor argument of every control is a payload slot in every structural position, on* handler code is tokenized and compared with the twin; extension nodes (pg.Ref, user HtmlTreeView.Extension classes); histories with renderings that fail midway in user code followed by judged renderings; hostile dict keys (path syntax) for every key style; out-of-range but legal control arguments with the snapshot taken before the first rendering.',
+}
+
+
 # Properties whose check is finished (built, swept, committed).
 READY = ['C01', 'C02', 'C03', 'C04', 'C05', 'C06', 'C07', 'C08', 'C09', 'C10', 'C11', 'C12', 'C13', 'C14', 'C15', 'C16', 'C17', 'C18', 'C19', 'C20']
 
@@ -93,7 +118,7 @@ def main():
           'evidence_file': f'evidence/{pid}.json',
           'replay_cmd_template': f'./check {pid} --replay {{path}}',
           'engine': 'pgverif',
-          'level_claimed': {'category': mod_level, 'text': text,
+          'level_claimed': {'category': mod_level, 'text': text + (' ' + ADD[pid] if pid in ADD else ''),
                             'design_ref': f'DESIGN.md section {ref}'},
           'level_note': note,
           'technique': 'runtime monitoring: ' + tech,
